@@ -50,3 +50,15 @@ Theorem C02_versioned_memtables_l0 : forall m ops,
   forall k v, get (run (init m) ops) k v = latest_at (writes ops) k v.
 Proof. exact lww_memtables_l0. Qed.
 Print Assumptions C02_versioned_memtables_l0.
+
+(** With every kind of maintenance step (Proofs/LsmChecked.v): admissible
+    writes, compactions from states that pass the boolean ordering checker
+    with admissible plans; if the final state passes the checker, a read at
+    [v] returns the newest version <= [v]. *)
+From NoKV Require Import Spec.LsmInvB Proofs.LsmCompact Proofs.LsmChecked.
+
+Theorem C02_checked_run_reads : forall m ops,
+  run_checked (init m) nil ops = true -> tier_inv_b (run (init m) ops) = true ->
+  forall k v, get (run (init m) ops) k v = latest_at (writes ops) k v.
+Proof. exact checked_run_reads. Qed.
+Print Assumptions C02_checked_run_reads.
